@@ -14,7 +14,7 @@ def run(ctx):
     corrs = tstream.make_corrs(ctx, ops=["apply_trade", "_on_order_pending_new", "_on_order_unsolicited_update"])
     vc = {"cash": ctx.corr("CashValidator", "every recorded decision of the real cash validator vs model `cashVeto` on the same order, cost and cash")}
     tstream.stream(ctx, ctx.n(60, 3000), corrs, [monitors.c09_monitor], extra_sync=lambda c, tr, ix: sync_misc.validators_sync(c, vc, tr, ix),
-                   cfg_opts=lambda k: ({"trade_handler_acts": True} if k % 2 else {}))
+                   cfg_opts=lambda k: ({"trade_handler_acts": True} if k % 2 else {"p_init_pos": 0.5}))      # even runs: configured starting holdings (margin / cash from the first day)
     # minute frequency (current_bar / next_bar matching): reserve monitor only
     minute_stream.stream(ctx, ctx.n(3, 100), [monitors.c09_monitor])
 
